@@ -364,10 +364,11 @@ def gen_draw(r, tier_weight_known=True):
 
 def scenario(args):
     """one history: the baseline run plus `draws` variants"""
-    base, seed, idx, draws = args
+    base, seed, idx, draws = args[:4]
+    uid = args[4] if len(args) > 4 else str(idx)          # scratch names must be unique per work item
     r = C.Rng(seed).fork(f"c12-{idx}")
     script = hist.gen_script(r.fork("script"))
-    sim = CSim(base, f"h{idx}b")
+    sim = CSim(base, f"h{uid}b")
     try:
         ref = run_history(sim, script)
     finally:
@@ -376,7 +377,7 @@ def scenario(args):
            "baseline_ok": all(o["rc"] == 0 for o in ref), "n_commits": len(ref)}
     for j, (settings, ctx, where) in enumerate(draws if draws is not None else
                                                [gen_draw(r.fork(f"draw{k}")) for k in range(5)]):
-        sim = CSim(base, f"h{idx}v{j}", settings, ctx, where)
+        sim = CSim(base, f"h{uid}v{j}", settings, ctx, where)
         try:
             got = run_history(sim, script)
             same = (strip_err(got) == strip_err(ref))
@@ -985,7 +986,7 @@ def run(ctx):
         pairs = [([a, b], "root", {}) for a, b in itertools.combinations(SETTING_NAMES, 2)]
         for i in range(2):
             for k in range(0, len(pairs), 60):
-                items.append((ctx.scratch, ctx.seed, 20000 + i, pairs[k:k + 60]))
+                items.append((ctx.scratch, ctx.seed, 20000 + i, pairs[k:k + 60], f"{20000 + i}c{k}"))
     res = C.parallel_map(scenario, items)
     n_var = n_same = n_known_fail = 0
     set_hist, ctx_hist, kinds = {}, {}, {}
